@@ -236,7 +236,7 @@ def _run_map(facts, fn, consts, u):
 
     def cv(d, k, ctx=()):
         return consts.get(d.rsplit("::", 1)[-1])
-    ex = SX.Engine(facts, fn.unit, _map_models(), max_paths=200, max_depth=3, inline_limit=0, const_value=cv)
+    ex = SX.Engine(facts, fn.unit, _map_models(), max_paths=200, max_depth=3, inline_limit=int(__import__("os").environ.get("MAP_INLINE", "120")), const_value=cv)
     out = []
     for p in ex.run(fn, [u]):
         if "diverge" in p.flags or "cut" in p.flags or "panic" in p.flags:
@@ -729,19 +729,64 @@ def check_len(res, facts):
 
 
 def check_sgn0(res, facts):
+    """sgn0 (RFC 9380 4.1): the low bit of the first non-zero base-prime-field coordinate, false for zero.  The
+    coordinates are touched only through is_zero and the parity of their standard integer, so the result is a function
+    of (zero?, odd?) per coordinate: all 3^k vectors for k = 1..3 coordinates are run on opaque coordinate tokens
+    (closures / loops interpreted), independent of how the search is written."""
+    from arklib import bvinterp as BI
+    import itertools
     rule = res.rule("R-SGN0", "sgn0: low bit of the first non-zero base-prime-field coordinate", 1)
     fns = [f for f in facts.fns(unit="ws", crate="ark_ec") if f.id == "ark_ec::hashing::curve_maps::parity"]
     if not fns:
         rule.bad("ark_ec|parity", "anchor missing")
         return
     f = fns[0]
-    names = [t["f"].get("name") for _, t in f.calls()]
-    clos = facts.closures_of(f)
-    cn = {c.id.rsplit("::", 1)[-1]: [t["f"].get("name") for _, t in c.calls()] for c in clos}
-    find_ok = "find" in names and any("is_zero" in v for v in cn.values()) and "to_base_prime_field_elements" in names
-    odd_ok = any("is_odd" in v and "into_bigint" in v for v in cn.values())
-    no_rev = "rev" not in names and "last" not in names
-    (rule.ok if find_ok and odd_ok and no_rev else rule.bad)("ark_ec|parity", "first non-zero coordinate in tower order, parity of its standard integer (find: %s, is_odd(into_bigint): %s, forward order: %s)" % (find_ok, odd_ok, no_rev), f.loc)
+
+    def closure_of(t):
+        cty = [a for a in (t["f"].get("targs") or []) if a.startswith("{closure@")]
+        cands = [c for c in facts.fns(unit="ws", crate="ark_ec") if c.kind == "Closure" and c.id.startswith(f.id + "::{closure") and cty and cty[0] in (c.local_ty(1) or "")]
+        return cands[0] if len(cands) == 1 else None
+
+    def tok(v):
+        while isinstance(v, BI.Ref):
+            v = v.get()
+        return v
+    cases, verdict = 0, None
+    for k in (1, 2, 3):
+        for vec in itertools.product(("zero", "even", "odd"), repeat=k):
+            def model(nm, argv, t, vec=vec, k=k):
+                a0 = tok(argv[0]) if argv else None
+                if nm == "to_base_prime_field_elements":
+                    return BI.Iter([BI.Tok(("c", i)) for i in range(k)])
+                if nm == "is_zero" and isinstance(a0, BI.Tok) and a0.label[0] == "c":
+                    return vec[a0.label[1]] == "zero"
+                if nm == "into_bigint" and isinstance(a0, BI.Tok) and a0.label[0] == "c":
+                    return BI.Tok(("int", a0.label[1]))
+                if nm in ("is_odd", "is_even") and isinstance(a0, BI.Tok) and a0.label[0] == "int":
+                    if vec[a0.label[1]] == "zero":
+                        return nm == "is_even"
+                    return (vec[a0.label[1]] == "odd") == (nm == "is_odd")
+                return NotImplemented
+            try:
+                vals, _ = BI.run(f, {1: BI.Ref({"x": BI.Tok("element")}, "x")}, call_model=model, closure_of=closure_of, max_steps=4000)
+            except BI.Stop as e:
+                verdict = verdict or ("undecided", "%d coordinates %s: %s" % (k, list(vec), e))
+                break
+            got = vals.get(0)
+            first = next((v for v in vec if v != "zero"), None)
+            want = first == "odd"
+            cases += 1
+            if got is not want:
+                verdict = ("violation", "coordinates (zero? / parity) = %s in tower order: parity() answers %s, sgn0 is %s (the low bit of the first non-zero coordinate)" % (list(vec), got, want))
+                break
+        if verdict:
+            break
+    if verdict is None:
+        rule.ok("ark_ec|parity", "%d (zero?, odd?) vectors over 1..3 coordinates: always the parity of the first non-zero coordinate" % cases, f.loc)
+    elif verdict[0] == "violation":
+        rule.bad("ark_ec|parity", verdict[1], f.loc)
+    else:
+        rule.undecided("ark_ec|parity", "interpretation stopped (%s)" % verdict[1], f.loc)
 
 
 def check_cleared(res, facts):
